@@ -39,6 +39,7 @@ fi
 ./bin/instrument -repo "$REPO" -out "$B/overlay" -fs ${YIELD:+-yield "$YIELD"} ${DETMAPS:+-detmaps "$DETMAPS"} >"$B/instrument.log" 2>&1 || { cat "$B/instrument.log" >&2; build_fail "overlay generation"; }
 MODFLAG=""
 if [ "$REPO" != "/repo" ]; then
+  export VERIF_EVIDENCE_DIR="$B/evidence-scratch-repo"
   sed "s#=> /repo#=> $REPO#" go.mod > "$B/go.mod"; cp go.sum "$B/go.sum"
   MODFLAG="-modfile=$B/go.mod"
 fi
